@@ -170,6 +170,9 @@ func Run(r *ev.Run) {
 			var objs []*jsonschema.Schema
 			objects(mut, &objs, map[*jsonschema.Schema]bool{})
 			for oi, o := range objs {
+				if len(objs) > 40 && oi%9 != 0 && oi != len(objs)-1 {
+					continue // large trees: every 9th object and the last one
+				}
 				v := reflect.ValueOf(o).Elem()
 				for f := 0; f < v.NumField(); f++ {
 					fv := v.Field(f)
